@@ -25,7 +25,7 @@ class C12(PropBase):
             "(pending-size bucket, amount class) pairs plus role")
     ASSUMPTIONS = ["deep copies of a session behave like the session (used to read pending bytes without draining)",
                    "negative drain amounts are outside the statement's domain and are not issued"]
-    RUNS = {"quick": 3200, "thorough": 120000}
+    RUNS = {"quick": 12000, "thorough": 160000}
     STEPS = {"quick": 70, "thorough": 140}
     REQUIRED_CELLS = tuple("amount:%s" % c for c in ("none", "zero", "one", "partial", "exact", "plus1", "huge"))
     REQUIRED_REACH = ("partial_then_send", "drain_zero_with_pending", "refused_call_with_pending", "drain_after_close")
